@@ -88,6 +88,23 @@ func Gen(seed uint64, profile string) *Scenario {
 		sc.Tree = append(sc.Tree, TNode{Root: "src", Path: "aa-mods", Kind: "link", Mode: 0o777, Target: "../ext/dir", Sec: 1300000005})
 		sc.Tree = append(sc.Tree, TNode{Root: "ext", Path: "dir/blob.bin", Kind: "file", Mode: 0o644, Tok: "OUT-8;", Size: 12000, Sec: 1300000006})
 	}
+	if gr := simkit.NewRNG(seed, "pw/builtin-link"); (profile == "links" || profile == "roundtrip" || profile == "ignore") && gr.Chance(1, 8) {
+		// a link that carries the name of a directory the built-in rules speak about and leads
+		// to a directory of the tree (a linked checkout): it is a link, not a directory, and
+		// everything that sorts after it is still to come
+		has, dir := false, ""
+		for _, n := range sc.Tree {
+			if n.Root == "src" && n.Path == ".git" {
+				has = true
+			}
+			if n.Root == "src" && n.Kind == "dir" && !strings.Contains(n.Path, "/") && dir == "" {
+				dir = n.Path
+			}
+		}
+		if !has && dir != "" {
+			sc.Tree = append(sc.Tree, TNode{Root: "src", Path: ".git", Kind: "link", Mode: 0o777, Target: dir, Sec: 1300000004})
+		}
+	}
 	if k.concShared {
 		for i, n := range []string{"big-1.bin", "big-2.bin"} {
 			sc.Tree = append(sc.Tree, TNode{Root: "src", Path: n, Kind: "file", Mode: 0o644, Tok: "IN-big" + strconv.Itoa(i) + ";", Size: 70000 + 20000*i, Sec: 1300000000 + int64(i)})
